@@ -5,10 +5,10 @@ from vlib.ref import trxmodel, trxd
 
 
 class AppWorld:
-    def __init__(self, defs, ind_period=1, clck_start=0, script=(), choice_mode="lowhigh"):
+    def __init__(self, defs, ind_period=1, clck_start=0, script=(), choice_mode="lowhigh", choice_default=0):
         self.defs = defs
         self.app, self.fab = world.make_app(trxmodel.config_argv(defs))
-        world.chooser.reset(script, choice_mode)
+        world.chooser.reset(script, choice_mode, choice_default)
         # constructor parameters of CLCKGen (documented configuration, default 102 / 0)
         self.app.clck_gen.ind_period = ind_period
         self.app.clck_gen.clck_start = clck_start
@@ -45,7 +45,12 @@ class AppWorld:
         if exps is not None:
             mm = trxmodel.match(exps, out)
             if mm:
-                v.append(("reply", "ctrl %r to %s: %s" % (payload, d.name, mm)))
+                try:
+                    verb = bytes(payload[4:]).split(b" ")[0].split(b"\0")[0].decode("ascii")[:20] or "-"
+                except Exception:
+                    verb = "?"
+                v.append(("reply:%s%s" % (verb, ":long" if len(payload) > 128 else ""),
+                          "ctrl %r to %s: %s" % (bytes(payload[:160]), d.name, mm)))
         self.last_out = out
         return self._common("after %r to %s" % (payload, d.name), v)
 
